@@ -4,7 +4,8 @@ from common import cz, czl, copt, cbool, parse_coq_value
 META = dict(
     coq_targets=['CheckSched.vo'],
     rule="well-formed interleavings of {start generator (3 parameter sets incl. overlapping steps and "
-         "an invalid one), advance, close, enter context, exit context, read element, write element} "
+         "an invalid one), advance, close, enter context, exit context, read element, write element, append "
+         "1 / 3 / 1000 elements (also inside contexts and while generators are active)} "
          "for up to 3 generators and 2 nested contexts, random prefixes of length 3..9 completed by "
          "finishing / abandoning the survivors in random order, plus the 6-action schedule that "
          "crashed the pinned tree; each schedule runs in its OWN interpreter on a 4.8 MB int64 array; "
@@ -39,8 +40,9 @@ def gen(ctx):
                       probe=[260000]))
     for _ in range(120 if ctx.quick else 1200):
         acts, gst, depth, probe = [], [], 0, []
+        curlen = N
         for _ in range(r.randint(3, 9)):
-            opts = ['read', 'write']
+            opts = ['read', 'write', 'grow']
             if len(gst) < 3: opts += ['start', 'start']
             live = [i for i, s in enumerate(gst) if s != 'done']
             if live: opts += ['advance'] * 4 + ['close']
@@ -58,7 +60,11 @@ def gen(ctx):
             elif k == 'exit':
                 acts.append(['exit']); depth -= 1
             elif k == 'read':
-                acts.append(['read', r.randrange(N)])
+                acts.append(['read', r.choice([r.randrange(N), curlen - 1])])
+            elif k == 'grow':
+                inc = r.choice([1, 3, 1000])
+                curlen += inc
+                acts.append(['grow', inc, curlen])
             else:
                 i = r.choice([0, 199999, 200000, 260000, N - 1, r.randrange(N)])
                 acts.append(['write', i, r.randrange(-9, 0)]); probe.append(i)
@@ -87,6 +93,7 @@ def act_term(a):
     if k == 'exit': return "AExit"
     if k == 'read': return f"(ARead {cz(a[1])})"
     if k == 'write': return f"(AWrite {cz(a[1])} {cz(a[2])})"
+    if k == 'grow': return f"(AResize {cz(a[2])})"
     raise ValueError(a)
 
 
